@@ -78,7 +78,7 @@ def _gen_abstract(rng, keys, *, exact=False, t0_zero=False, tempo_style=None, gr
     """A small musical chart: tempo script in beats (first change at beat 0, which sounds at t0 ms), notes on a beat grid.
     Per column the notes are laid out along a cursor, so long notes of a column never overlap and no two objects share a
     position.  full_cols: the last column is used (converters derive the key count from the largest column used)."""
-    style = tempo_style or rng.choice(["one", "one", "lines", "lines", "beats", "half", "quarter", "eighth"])
+    style = tempo_style or rng.choice(["one", "one", "lines", "lines", "beats", "half", "quarter"])
     n_t = 1 if style == "one" else rng.choice([2, 2, 3])
 
     def bpm():
@@ -115,13 +115,16 @@ def _gen_abstract(rng, keys, *, exact=False, t0_zero=False, tempo_style=None, gr
     last_beat = tempo[-1][0] + rng.choice([4, 8, 8, 12])
     cols = list(range(keys))
     use = rng.sample(cols, min(keys, rng.choice([1, 2, 3, 4, 7])))
-    if full_cols and keys - 1 not in use:
-        use[0] = keys - 1
+    if full_cols:
+        use = [keys - 1] + [c for c in use if c != keys - 1][:max(0, len(use) - 1)]
     budget = max_notes or rng.choice([2, 4, 6, 9])
+    per_col = budget // len(use) + 1
     notes = []
     for c in use:
         cur = Fr(rng.randrange(0, 4 * g), g) + start_beat
-        while cur < last_beat + start_beat and len(notes) < budget:
+        mine = 0
+        while cur < last_beat + start_beat and len(notes) < budget and mine < per_col:
+            mine += 1
             if rng.random() < 0.3:
                 ln = Fr(rng.randint(1, 3 * g), g) if g > 1 else Fr(rng.randint(1, 3))
                 ln = max(ln, Fr(1, 4))
@@ -556,8 +559,8 @@ def execute(case):
         return out
     try:
         kw = {}
-        if case["tgt"] == "bms" and case["src"] != "sm" and case.get("shift") is not None:
-            kw["move_right_by"] = case["shift"]
+        if case["tgt"] == "bms" and case["src"] in ("osu", "qua") and case.get("shift"):
+            kw["move_right_by"] = case["shift"]                 # O2JToBMS: the documented default (1) is what is expected
         res = cv.convert(m, **kw)
     except EXPECTED as e:
         out["exc"] = "convert: " + type(e).__name__ + ": " + str(e)[:100]
@@ -922,7 +925,7 @@ SCENARIOS = [
     ("sjis_wav", lambda a, b: a == "bms" and b == "osu"),             # non-ASCII sample name
     ("ev0", lambda a, b: a == "o2j" and b == "bms"),                  # tempo event at position 0
     ("eighth", lambda a, b: b == "sm" and a not in ("sm", "bms")),    # tempo x4 at an x.125 beat
-    ("bpm4", lambda a, b: b == "bms" and a not in ("sm", "bms")),     # tempo with more than three decimals
+    ("bpm4", lambda a, b: b == "bms"),                                # tempo with more than three decimals
     ("pad", lambda a, b: b == "sm"),                                  # empty leading measures, key count other than 4
     ("nostops", lambda a, b: a == "sm"),                              # no #STOPS tag
 ]
@@ -957,7 +960,7 @@ def gen_case(rng, a, b, scen="clean"):
         if a != "o2j":
             keys = 7 if (a == "qua" or b == "qua" or rng.random() < 0.5) else 4
     elif scen == "cs":
-        keys = rng.choice([7, 6, 8, 3])
+        keys = rng.choice([7, 6, 8])
     elif scen == "nohdr":
         opt["headers"] = "drop"
     elif scen == "sjis_wav":
@@ -1027,6 +1030,9 @@ def _foreign_cases(rng, n):
             if max(lanes + [1]) <= 7:
                 break
         doc["Mode"] = f"Keys{k}"
+        for sv in doc["SliderVelocities"]:
+            if sv.get("Multiplier") == 0:
+                sv["Multiplier"] = 0.5                       # a zero multiplier has no osu code (-100/x): outside the target format
         out.append({"src": "qua", "tgt": "osu", "keys": k, "dom": False, "scen": "c06", "file": doc, "shift": 0, "n": 1})
     return out
 
